@@ -567,9 +567,15 @@ class C01(Check):
                   ("*".join(["2**499999"] * 500), None), ("+".join(["2**499999"] * 900), None),
                   ("sum([" + ",".join(["2**499999"] * 600) + "])", None), ("factorial(50000)*factorial(50000)", None),
                   ("2**2**2**2**2**2", None), ("'a' * 10**4 * 10**4", None), ("(1, 2) * 10**9", None),
-                  ("factorial(10**6)", None), ("[[0]*10**4]*10**4", None)]
+                  ("factorial(10**6)", None), ("[[0]*10**4]*10**4", None),
+                  # %-formatting widths, other primitives on the largest admissible integers, parser limits
+                  ("'%99999999d' % 1", None), ("'%*d' % (10**9, 1)", None), ("'%.999999999f' % 1.5", None),
+                  ("gcd(2**499999 + 1, 3**300000)", None), ("round(2**499999, -100000)", None),
+                  ("pow(3, 2**40000, 2**39999 + 1)", None), ("2**499999 // 3**300000 % 7**100000", None),
+                  ("-" * 9000 + "1", None), ("~" * 9000 + "1", None), ("1**" * 3000 + "1", None),
+                  ("int('9' * 9000)", None), ("'a' * 10**4 % ()", None)]
         if self.tier == "quick":
-            stream = stream[:10] + stream[12:18]
+            stream = stream[:10] + stream[12:18] + stream[23:31]
         limit = 4.0
         results = []
         ctx = multiprocessing.get_context("fork")
